@@ -84,8 +84,7 @@ def table_discharges(prog, chk, pid) -> Dict[str, str]:
     per_ok = all(v[1] is not None for v in tm.values() if v[0] == T["PERIPHERAL"])
     chk.require(per_ok, "%s.table:peripheral-has-hwcid" % pid, "bec2format.bf3file.BF2_TAGTYPE_MAP", "every PERIPHERAL entry carries a hardware id", "", "so description[HWCID] exists for every imported peripheral component", "a PERIPHERAL tag type without hardware id: annotations() would raise KeyError")
     if per_ok:
-        out["KeyError|bec2format.bf3file.Bf3File.annotations|description[BF3TAG.HWCID]"] = "peripheral components always carry HWCID (table audit)"
-        out["IndexError|KeyError|bec2format.bf3file.Bf3File.annotations|description[BF3TAG.HWCID]"] = out["KeyError|bec2format.bf3file.Bf3File.annotations|description[BF3TAG.HWCID]"]
+        out["KeyError|bec2format.bf3file.Bf3File.annotations|[BF3TAG.HWCID]"] = "peripheral components always carry HWCID (table audit)"
     fmt_ok = all(v[2] in (F["BLOB"], F["MEMORYIMAGE"], F["BF2COMPATIBLE"]) for v in tm.values() if v[2] is not None)
     chk.require(fmt_ok, "%s.table:formats-handled" % pid, "bec2format.bf3file.BF2_TAGTYPE_MAP", "every mapped payload format has a conversion arm", "", "so the NotImplementedError arm of bf2_convert_payload is unreachable from the importer", "a mapped format has no conversion arm: bf2_import would raise NotImplementedError")
     if fmt_ok:
@@ -93,22 +92,25 @@ def table_discharges(prog, chk, pid) -> Dict[str, str]:
     return out
 
 
+PINNED_FUNCTIONS = set(json.load(open(os.path.join(VERIF, "spec", "pinned_functions.json")))["functions"])
 STATIC_DISCHARGE = json.load(open(os.path.join(VERIF, "spec", "discharge.json")))
 
 
-def discharged(esc: Escape, table: Dict[str, str]) -> str:
+def discharged(esc: Escape, table: Dict[str, str], home: str = None) -> str:
     from bfsa.report import norm_construct
 
     cons = norm_construct(esc.construct)
+    home = home or esc.fn
     for k, why in table.items():
         parts = k.split("|")
         frag = parts[-1]
         fn = parts[-2]
         exc = "|".join(parts[:-2])
-        if exc == esc.exc and fn == esc.fn and frag in cons:
+        lookup = ("KeyError", "IndexError", "IndexError|KeyError")
+        if (exc == esc.exc or (exc in lookup and esc.exc in lookup)) and fn in (esc.fn, home) and frag in cons:
             return why
     for d in STATIC_DISCHARGE.get("C14", []):
-        if d["exception"] == esc.exc and d["function"] == esc.fn and d["construct"] in cons:
+        if d["exception"] == esc.exc and d["function"] in (esc.fn, home) and d["construct"] in cons:
             return d["reason"]
     # crc8404B(<one argument>).to_bytes(n >= 2, ...): with the default start value the checksum is a 16-bit number (C15, whole-function proof)
     import re as _re
@@ -270,6 +272,20 @@ def termination_rule(prog, chk, pid, an: ExcAnalysis):
                             extra = [f for f in fs[i + 1:] if f[0] in ("if", "loop") and not (f[0] == "if" and cond is not None and f[1] is cond)]
                             if not extra:
                                 okr = True
+            if not okr and cond is not None:
+                # `while (line := f.readline()) != SEP:` -- the line is read in the loop head; at end of input it is '' and the body must raise on it
+                heads = [e for e in rd_raw if e.d["name"] == "readline" and e.ctx and e.ctx[-1][0] == "loop" and e.ctx[-1][1] == lid
+                         and any(x is unsnap(e.d["result"]) for x in subterms(cond))]
+                for h in heads:
+                    line = unsnap(h.d["result"])
+                    for u in [e for e in body if e.kind == "unpack" and e.d["n"] == 2]:
+                        m2 = meth_call(unsnap(u.d["value"]))
+                        if m2 and m2[1] == "split" and unsnap(m2[0]) is line and len(m2[2]) == 2 and is_const(m2[2][0]) and cval(m2[2][0]) != "":
+                            fs = list(u.ctx)
+                            i = max(k for k, f in enumerate(fs) if f[0] == "loop" and f[1] == lid)
+                            extra = [f for f in fs[i + 1:] if f[0] in ("if", "loop") and not (f[0] == "if" and f[1] is cond)]
+                            if not extra:
+                                okr = True
             ok = okr
             why = "at end of input readline() returns '' forever: neither the condition nor the body stops the loop"
         else:
@@ -367,12 +383,22 @@ def mac_input_rule(prog, chk, pid, an: ExcAnalysis):
             for h in getattr(node, "handlers", []) or []:
                 yield from blocks(h)
 
+        # local names that stand for cmac: `m = cmac` or `m = partial(cmac, key=...)` (no positional argument bound, so the data is still the first argument)
+        mac_names = {"cmac"}
+        for a in ast.walk(fi.node):
+            if isinstance(a, ast.Assign) and len(a.targets) == 1 and isinstance(a.targets[0], ast.Name):
+                v = a.value
+                if isinstance(v, ast.Name) and v.id == "cmac":
+                    mac_names.add(a.targets[0].id)
+                elif (isinstance(v, ast.Call) and (getattr(v.func, "id", None) == "partial" or getattr(v.func, "attr", None) == "partial") and len(v.args) == 1
+                      and isinstance(v.args[0], ast.Name) and v.args[0].id == "cmac"):
+                    mac_names.add(a.targets[0].id)
         for blk in blocks(fi.node):
             for i, st in enumerate(blk):
                 own = [st.test] if isinstance(st, (ast.If, ast.While)) else [st.iter] if isinstance(st, ast.For) else [st] if not hasattr(st, "body") else []
                 for top in own:
                     for c in ast.walk(top):
-                        if not (isinstance(c, ast.Call) and isinstance(c.func, ast.Name) and c.func.id == "cmac" and c.args):
+                        if not (isinstance(c, ast.Call) and isinstance(c.func, ast.Name) and c.func.id in mac_names and c.args):
                             continue
                         n_sites += 1
                         data = c.args[0]
@@ -549,6 +575,7 @@ def run(prog, chk, tier):
     safe, n_sub = c16.aes_index_safety(prog)
     chk.require(safe, "C14.aes-summary-licensed", "register_crypto_plugin.pyaes.aes.AES", "AES.__init__/encrypt/decrypt raise only ValueError", "", "for key sizes 16/24/32 and 16-byte blocks every table/list index in the block functions is concrete and in range (%d lookups interpreted)" % n_sub, "an AES block function performs a lookup that is not statically in range")
     total_allowed = 0
+    lib_ = {q_: f_ for q_, f_ in prog.funcs.items() if q_.startswith("bec2format.")}
     for q in ENTRY:
         fi = prog.func(q)
         escs = an.escapes(fi)
@@ -557,13 +584,17 @@ def run(prog, chk, tier):
             if exc_in_family(an.h, s.exc, ALLOWED):
                 total_allowed += 1
                 continue
-            why = discharged(s, table)
+            # a site in a function that did not exist on the pinned tree (an extracted helper) is reported under the pinned function it was carved out of
+            home = s.fn
+            if s.fn in lib_ and s.fn not in PINNED_FUNCTIONS:
+                home = _pinned_home(prog, lib_, lib_[s.fn])
+            why = discharged(s, table, home)
             rule = "C14.escape:%s" % s.exc.replace(E, "ecdsa.").split(".")[-1] if "|" not in s.exc else "C14.escape:%s" % s.exc
             if why:
-                chk.ok(rule, s.fn, s.construct, s.where, "discharged: " + why)
+                chk.ok(rule, home, s.construct, s.where, "discharged: " + why)
                 continue
             chain = " => ".join(x.split(" -> ")[-1].split(".")[-1] for x in s.chain[-4:])
-            chk.fail(rule, s.fn, s.construct, s.where, "%s can escape %s%s" % (s.exc, q.split(".")[-2] + "." + q.split(".")[-1], (" via " + chain) if chain else ""))
+            chk.fail(rule, home, s.construct, s.where, "%s can escape %s%s" % (s.exc, q.split(".")[-2] + "." + q.split(".")[-1], (" via " + chain) if chain else ""))
         chk.ok("C14.entry-analysed", q, "%d escaping (class, construct) pairs" % len(escs), "%s:%d" % (fi.file, fi.lineno), "entry point interpreted; allowed escapes: FormatError / ValueError / OSError families")
     # user-supplied decryptor lists may mix encryptor kinds: the selector filter must not see foreign kinds (AttributeError)
     from rules import bec2
